@@ -2,7 +2,7 @@
    monitor of C10 applied to the IMPLEMENTATION's observations. *)
 From Coq Require Import ZArith List Bool.
 From Synnax Require Import Common.Base Cesium.Store Cesium.IndexSearch Cesium.Distance Cesium.Stamp
-     Cesium.UnaryIter Cesium.UnaryWrite Cesium.Read.
+     Cesium.UnaryIter Cesium.UnaryWrite Cesium.Read Cesium.LayoutOk.
 Import ListNotations.
 Local Open Scope Z_scope.
 
@@ -191,3 +191,9 @@ Fixpoint diag_trace (tru : assoc) (b : tr) (prev : option (cmd * obs)) (l : list
   end.
 Definition diagnose (c : case_t) : list (Z * list Z) :=
   diag_trace (truth c) (k_bounds c) None (combine (k_cmds c) (k_obs c)) 0.
+
+(* does the layout the model computes for the case satisfy the decidable hypothesis of the
+   exactness theorems (C10_step_exact_partial)? — reported as coverage of the guard *)
+Definition in_guard (c : case_t) : bool :=
+  let '(st, _) := model_state c in
+  let '(P, D, _) := chan_layout (s_db st) (k_key c) in layout_okb P D.
